@@ -207,6 +207,7 @@ func (m *Monitors) relational(o *Op, res string, pre *Pre, s *Snap, bal map[int6
 	f := m.facts(o, res, pre, s)
 
 	m.noteK3(s)
+	m.c13WdFrame(o, res, pre, s)
 
 	// register newly issued requests before the checks use them
 	m.c02Issue(f, pre, s)
@@ -1474,4 +1475,31 @@ func sortedCtxIDs(mp map[string]types.RequestContext) []string {
 	}
 	sort.Strings(l)
 	return l
+}
+
+
+// c13WdFrame: an owner's withdrawal address changes only by that owner's own accepted
+// MsgSetWithdrawAddress (C13: "to the withdrawal address the owner designated").
+func (m *Monitors) c13WdFrame(o *Op, res string, pre *Pre, s *Snap) {
+	a := m.r.a
+	check := func(owner string, before, after string, had, has bool) {
+		if had == has && before == after {
+			return
+		}
+		m.evals["C13.wd"]++
+		if o.Kind == "setwd" && res == "ok" && string(a.addr(o.Owner)) == owner && has && after == string(a.addr(o.Addr)) {
+			return
+		}
+		m.fail("C13", "withdrawal address of owner %d changed by %s (was %x, now %x) without its own set-withdraw-address message",
+			a.atomOfAddr([]byte(owner)), o.Kind, before, after)
+	}
+	for owner, w := range pre.snap.Wd {
+		nw, ok := s.Wd[owner]
+		check(owner, w, nw, true, ok)
+	}
+	for owner, nw := range s.Wd {
+		if _, ok := pre.snap.Wd[owner]; !ok {
+			check(owner, "", nw, false, true)
+		}
+	}
 }
